@@ -426,6 +426,11 @@ func mutateMsg(t *rapid.T, m sdk.Msg, ti int) (sdk.Msg, string) {
 	switch rapid.IntRange(0, 4).Draw(t, "operator") {
 	case 0: // same fields under another type
 		tj := rapid.IntRange(0, len(msgFactories)-1).Draw(t, "other-type")
+		if rapid.Bool().Draw(t, "bare") {
+			if o := transplant(m, msgFactories[tj]()); o != nil {
+				return o, "same fields under another type, the rest empty"
+			}
+		}
 		if o := transplant(m, minimalMsg(tj)); o != nil {
 			return o, "same fields under another type"
 		}
@@ -513,6 +518,19 @@ func TestC14Enum(t *testing.T) {
 					}
 					if msg, p := e.checkPair(a, b, st); msg != "" {
 						c14Fail(rt, msg, p)
+					}
+					// and the bare transplant: every field the other type does not share stays
+					// empty (asserted, like every pair, only when both members pass validation)
+					if b0 := transplant(a, msgFactories[j]()); b0 != nil && !sameMessage(b0, b) {
+						if msg, p := e.checkPair(a, b0, st); msg != "" {
+							c14Fail(rt, msg, p)
+						}
+						// the reverse direction too: b0's fields under a's type, the rest empty
+						if a0 := transplant(b0, msgFactories[i]()); a0 != nil && !sameMessage(a0, a) {
+							if msg, p := e.checkPair(a0, b0, st); msg != "" {
+								c14Fail(rt, msg, p)
+							}
+						}
 					}
 					st.add(!sameMessage(a, b) && safeValidate(b) == nil && safeValidate(a) == nil, hash8(protoOf(a), protoOf(b), []byte(sdk.MsgTypeURL(b))), nil, "enumerated type pair")
 					n++
